@@ -1168,7 +1168,9 @@ def extract_segment(relpath, qual, ann):
         if len(hits) != 1:
             raise Inconclusive(f"anchor lost: M4 segment {what}={prefix!r} matches {len(hits)} statements of the block in {qual}")
         return hits[0]
-    k0 = find_stmt(seg_from, "from") + (1 if after else 0)
+    # `from_block_start=1`: the segment is everything from the FIRST statement of the block that owns the `to` statement (a loop body from
+    # its top: whatever is done before the first loop-control statement is inside the segment, wherever it is written)
+    k0 = 0 if ann.get("seg_from_block_start") else find_stmt(seg_from, "from") + (1 if after else 0)
     k1 = find_stmt(ann["seg_to"], "to") if ann.get("seg_to") else len(st)
     if k1 <= k0:
         raise Inconclusive(f"M4 segment of {qual}: empty range")
